@@ -576,10 +576,11 @@ fn check(plan: &Plan, out: &Outcome, prop: &str) -> Verdict {
                                     let srank = later.len() as i32;
                                     let mrsic = later.last().map(|x| **x).unwrap_or(s);
                                     let mrsic_m = m.samples.iter().find(|x| x.uid == mrsic.seq);
-                                    let mrs = m.most_recent(s.key);
+                                    // MRS: the most recent sample received for the instance, whether or not it is still stored
+                                    let mrs = Some(inst.mrs_generation);
                                     if let (Some(mrsic_m), Some(mrs)) = (mrsic_m, mrs) {
                                         let grank = (mrsic_m.dgc + mrsic_m.nwgc) - (ms.dgc + ms.nwgc);
-                                        let agrank = (mrs.dgc + mrs.nwgc) - (ms.dgc + ms.nwgc);
+                                        let agrank = mrs - (ms.dgc + ms.nwgc);
                                         if s.srank != srank || s.grank != grank || s.agrank != agrank {
                                             viol!("C20.ranks", format!("C20.ranks s={} g={} a={}", s.srank != srank, s.grank != grank, s.agrank != agrank), "{what}: seq {} reported (sample_rank, generation_rank, absolute_generation_rank) = ({}, {}, {}) but the DDS definitions give ({srank}, {grank}, {agrank})", s.seq, s.srank, s.grank, s.agrank);
                                         }
